@@ -3,7 +3,8 @@
 (1) explicit-state BFS (seqx): the alphabet holds ordinary successful writes/removals AND self-contained
     abandonment episodes — a writer (sync/async, keyed/by address, declared size none / <= 1 MiB / wrong, bytes
     equal to an existing value or fresh) that is dropped after creation / after 1-2 chunks / after flush / after
-    close(), or whose commit is rejected by the size or by the integrity check. After every transition: all
+    close(), or whose commit is rejected by the size or by the integrity check, or a linker (link_to) that is
+    opened, read from and dropped without commit. After every transition: all
     lookups and the listing equal the model (episodes do not change it), tmp/ holds no file, and content files
     match their addresses.
 (2) in-flight abandonment (async flavours): poll_write once (the blocking task is spawned), then drop the writer
@@ -41,6 +42,9 @@ def episodes(full):
                     if not full and why == "size-large" and side == "s":
                         continue
                     out.append({"t": "REJ", "side": side, "keyed": keyed, "data": data, "why": why})
+                # a linker (link_to feature) that is opened, read from (nothing / a few bytes / everything) and dropped without commit
+                for rd in ("none", "part", "all"):
+                    out.append({"t": "LAB", "side": side, "keyed": keyed, "data": data, "read": rd})
     return out
 
 
@@ -67,7 +71,7 @@ class C14Spec(seqx.Spec):
 
     def apply(self, ctx, res, srv, cache, action, model, replay):
         t = action["t"]
-        if t not in ("AB", "REJ"):
+        if t not in ("AB", "REJ", "LAB"):
             return seqx.apply_standard(self, ctx, res, srv, cache, action, model, replay)
         side = action["side"]
         pre = "sw_" if side == "s" else "aw_"
@@ -81,6 +85,28 @@ class C14Spec(seqx.Spec):
             r["reply"] = rep
             V.violation(res, "abandon:%s:%s" % (label(action), sig), what, r)
 
+        if t == "LAB":
+            tgt = ctx.path("c14-link-target-%s" % action["data"])
+            if not os.path.isfile(tgt):
+                with open(tgt, "wb") as fh:
+                    fh.write(data)
+            req = {"op": ("sl_" if side == "s" else "al_") + "open", "cache": cache, "target": tgt}
+            if key is not None:
+                req["key"] = key
+            rep = srv.call(req)
+            res["transitions"] += 1
+            if "ok" not in rep:
+                bad("open-" + classify(rep), "opening a linker failed: %r" % rep, rep)
+                return rep
+            h = rep["ok"]["h"]
+            if action["read"] != "none":
+                r = srv.call({"op": "r_read", "h": h, "n": 3} if action["read"] == "part" else {"op": "r_read_to_end", "h": h})
+                res["transitions"] += 1
+                if "ok" not in r:
+                    bad("read-" + classify(r), "reading through the linker failed: %r" % r, r)
+            r = srv.call({"op": "l_drop", "h": h})
+            res["transitions"] += 1
+            return r
         opts = {}
         if t == "AB":
             if action["declared"] == "correct":
@@ -173,6 +199,8 @@ def label(action):
         return "AB(%s,%s,%s,size=%s,%s)" % (action["side"], "keyed" if action["keyed"] else "hash", action["data"], action["declared"], action["point"])
     if action["t"] == "REJ":
         return "REJ(%s,%s,%s,%s)" % (action["side"], "keyed" if action["keyed"] else "hash", action["data"], action["why"])
+    if action["t"] == "LAB":
+        return "LAB(%s,%s,%s,read=%s)" % (action["side"], "keyed" if action["keyed"] else "hash", action["data"], action["read"])
     return _old_label(action)
 
 
@@ -322,7 +350,7 @@ def main(tier, seed=0):
     return run.finish(PROP, tier, total, merr_all, time.time() - t0, level="model_checking",
                       rule="BFS state = (canonical disk, model); alphabet = 7 ordinary actions (writes d1/d2 under a/b, removals, remove_hash) + abandonment episodes "
                            "[sync/async x keyed/by-address x bytes equal to d1 / fresh x declared size none/correct/wrong x dropped after creation/1 chunk/2 chunks/flush/close] + "
-                           "rejected commits [size, integrity, declared > 1 MiB]; after every transition lookups, listing, tmp/ and the content file set are compared with the model; "
+                           "rejected commits [size, integrity, declared > 1 MiB, overflow in a later chunk] + linkers (link_to) opened, read (nothing / partly / fully) and dropped; after every transition lookups, listing, tmp/ and the content file set are compared with the model; "
                            "plus in-flight abandonment (poll_write once, drop before/after the blocking task completes) on async-std and tokio",
                       technique="explicit-state breadth-first model checking of on-disk states with abandonment episodes as actions; in-flight case: both completion orders forced by the ptrace controller (fsx hold rules)",
                       assumptions=["in-flight case: the two orders (drop before / after the blocking task completes) are forced by fsx hold rules for plain writes (and checked from the step trace); for memory-mapped declared sizes, which issue no write system call, by a 60 ms delay",
